@@ -469,7 +469,13 @@ class SoftwareSwitchBase (object):
     err = ofp_error(type=type, code=code)
     if ofp:
       err.xid = ofp.xid
-      err.data = ofp.pack()
+      # Quote the request as it was received if we know that (see
+      # OFConnection.read).  Re-packing it is the fallback: pack() may
+      # refuse a request that was decoded fine (e.g., a packet_out with
+      # both a buffer_id and data fails ofp_packet_out's validation), and
+      # the sender is owed its error all the same.
+      raw = getattr(ofp, '_received_raw', None)
+      err.data = raw if raw is not None else ofp.pack()
     else:
       err.xid = 0
     if data is not None:
@@ -1205,6 +1211,8 @@ class OFConnection (object):
 
       io_worker.consume_receive_buf(message_length)
       self.starting = False
+      # Remember the bytes: an error reply quotes the offending request
+      msg_obj._received_raw = message[:message_length]
 
       if self.on_message_received is None:
         raise RuntimeError("on_message_receieved hasn't been set yet!")
